@@ -17,7 +17,7 @@ every piece of the instantiation is compared with what the property prescribes:
 Because the comparison is made on the instantiated text, it does not depend on how the source splits the work (closures, helper functions, a
 helper struct with methods, partition vs two filters).
 Not decided: naga's override resolution accepting the map (library); override types other than the four scalar kinds (WGSL admits no others)."""
-import itertools
+import itertools, os
 import engine_ogp as E
 import leaf_tables as LT
 from conc import Eval, V, Diverge, Unbound
@@ -97,6 +97,15 @@ def run(rep):
         combos = [(k, hid, d) for k, _ in KINDS for hid in (False, True) for d in (False, True)]
         if variant == 1:
             combos = list(reversed(combos))
+        if variant >= 2:
+            # thorough tier: seeded random sub-lists (length 0..10, repetitions allowed) - only-required, only-optional, single-element lists ..
+            import random
+            rnd = random.Random(1000 * int(os.environ.get('VERIF_SEED', '0') or 0) + variant)
+            combos = [rnd.choice(combos) for _ in range(rnd.randint(1, 10))]
+            if variant % 5 == 0:
+                combos = [c for c in combos if not c[2]] or combos[:1]
+            if variant % 5 == 1:
+                combos = [c for c in combos if c[2]] or combos[:1]
         for k, hid, d in combos:
             n += 1
             name = f'ov{n}' if variant == 0 else f'{k.lower()}_Const{n * 7}'
@@ -114,7 +123,8 @@ def run(rep):
     def value_text(kind, x):
         return f'if {x} {{ 1.0 }} else {{ 0.0 }}' if kind == 'Bool' else f'{x} as f64'
     n_rows = 0
-    for variant in (0, 1):
+    variants = (0, 1) if rep.tier != 'thorough' else tuple(range(0, 26))
+    for variant in variants:
         model, rows = world(variant)
         try:
             text = render(model)
@@ -122,14 +132,15 @@ def run(rep):
             for r_ in ('C12.fields', 'C12.optionality', 'C12.field-type', 'C12.partition', 'C12.key', 'C12.value', 'C12.shape'):
                 rep.bad(r_, f'world{variant}', where, f'cannot instantiate the override section on the model override list: {ex}', undecided=True)
             continue
-        sm = _re.search(r'pub struct OverrideConstants \{ (.*?) ,? ?\} impl OverrideConstants \{ pub fn constants \( & self \) -> std :: collections :: HashMap < String , f64 > \{ '
-                        r'let (mut )?entries = std :: collections :: HashMap :: from \( \[ (.*?) ,? ?\] \) ; (.*?) ?entries \} \}$', text)
+        sm = _re.search(r'pub struct OverrideConstants \{(.*?)\} impl OverrideConstants \{ pub fn constants \( & self \) -> std :: collections :: HashMap < String , f64 > \{ '
+                        r'let (mut )?entries = std :: collections :: HashMap :: from \( \[(.*?)\] \) ;(.*?) ?entries \} \}$', text)
         rep.check(sm is not None, 'C12.shape', f'section-shape:world{variant}', where,
                   f'the override section is not `pub struct OverrideConstants {{ fields }} impl OverrideConstants {{ pub fn constants(&self) -> HashMap<String, f64> {{ let [mut] entries = '
                   f'HashMap::from([required]); optional inserts; entries }} }}`: {text[:300]}', ok_detail='struct + constants(): map from the required entries, optional inserts, `entries` returned')
         if sm is None:
             continue
-        fields_t, mut_t, req_t, opt_t = sm.group(1), sm.group(2), sm.group(3), sm.group(4)
+        strip_c = lambda x: x.strip().rstrip(',').strip()
+        fields_t, mut_t, req_t, opt_t = strip_c(sm.group(1)), sm.group(2), strip_c(sm.group(3)), sm.group(4).strip()
         got_fields = [x.strip() for x in fields_t.split(' , ')] if fields_t.strip() else []
         exp_fields = [f'pub {nm} : Option < {LT.rust_scalar(k, dict(KINDS)[k])} >' if d else f'pub {nm} : {LT.rust_scalar(k, dict(KINDS)[k])}' for nm, k, id_, d in rows]
         rep.check(len(got_fields) == len(rows), 'C12.fields', f'fields-all:world{variant}', where, f'{len(got_fields)} fields for {len(rows)} overrides', ok_detail='one field per override')
